@@ -52,8 +52,10 @@ def geometry_2d(rng, max_voxels=300_000):
     return (1, 9, 70), (1, 16, 256), 32
 
 
-def cube(rng, n):
-    """finite float32 cube with structure (so that low rates are not all-zero) and full-range noise"""
+def cube(rng, n, rare=True):
+    """finite float32 cube with structure (so that low rates are not all-zero) and full-range noise; rare=False: without
+    the rare value classes (for checks that recognise *positions* by comparing decoded samples with the source within
+    the codec's error, which is relative to the largest value of a 4x4x4 block, not of a trace)"""
     i, x, z = np.meshgrid(np.arange(n[0]), np.arange(n[1]), np.arange(n[2]), indexing='ij')
     base = np.sin(0.3 * i + 0.17 * x + 0.05 * z) * 1000.0 + 13.0 * i - 7.0 * x
     noise = rng.standard_normal(n) * 50.0
@@ -61,7 +63,7 @@ def cube(rng, n):
     # now and then, rare but valid sample values: constant cubes, zero and -0.0 regions, huge and tiny magnitudes,
     # denormals, the largest finite floats
     r = rng.random()
-    if r < 0.16:
+    if rare and r < 0.16:
         k = int(r / 0.02)
         sl = tuple(slice(int(rng.integers(0, m)), None) for m in n)
         if k == 0:
